@@ -48,6 +48,9 @@ Grid == <<
   G("(- 7)", I(-7)), G("(/ -7 2)", Rt(-7, 2)),
   \* ... and by max/min, whose contagion step converts the operands before one of them is returned
   G("(max 3 1/2)", I(3)), G("(min -2 1/3)", I(-2)), G("(max 1/3 1/2 0)", Rt(1, 2)),
+  \* ... and by the other numeric procedures
+  G("(abs -1/2)", Rt(1, 2)), G("(floor 7/2)", I(3)), G("(ceiling -7/2)", I(-3)), G("(floor-quotient -7 2)", I(-4)),
+  G("(floor-remainder -7 2)", I(1)), G("(exact 2.0)", I(2)), G("(abs -0.5)", F(0, 126, 0)),
   \* reals
   G("0.0", PosZero), G("-0.0", NegZero), G("0.5", F(0, 126, 0)), G("-0.5", F(1, 126, 0)), G("1.5", F(0, 127, 4194304)),
   G("0.1", F(0, 123, 5033165)), G("0.25", F(0, 125, 0)), G("2.5", F(0, 128, 2097152)), G("-2.5", F(1, 128, 2097152)),
